@@ -21,7 +21,7 @@ from contracts.torstate import StateModels, StopUnit
 PROP = 'C08'
 TRUSTED = [
     'A3 Deferred semantics: callback/errback fire a Deferred once; a callback returning a Deferred makes the outer one wait for it; addBoth/addCallbacks run once in order',
-    'SingleObserver contract (txtorcon.util, proved for C03): the first fire() wins and is delivered to every when_fired() Deferred exactly once, later fires are no-ops',
+    'SingleObserver contract (txtorcon.util): discharged against the class body by the SingleObserver units of this check; the first fire() wins and is delivered to every when_fired() Deferred exactly once, later fires are no-ops',
     'A9 control-spec: keyword names of CIRC / STREAM events are upper-case and distinct (so a lower-cased keyword never collides with another keyword)',
     'find_keywords(args) yields the KEY=value arguments of the event (C13); hop lists come from str.split(",")',
     'listeners are arbitrary objects: their notification methods may be called with the object and flags; in Stream._notify they may raise (logged)',
@@ -117,6 +117,13 @@ class Models08(StateModels):
 
 
 def make_models():
+    return Models08()
+
+
+def make_models_for(unit_name):
+    if 'SingleObserver' in unit_name:
+        from props import C03
+        return C03.make_models_for(unit_name)
     return Models08()
 
 
@@ -709,6 +716,11 @@ def units():
         for fresh in (False, True):
             nh = 0 if status in ('LAUNCHED', 'CLOSED', 'FAILED') else 2
             us.append(('C08/Circuit.update@%s/%s' % (status, 'first_sight' if fresh else 'known'), unit_circuit_update(status, fresh, nh)))
+    # the SingleObserver contract used above is discharged here against the class body (units shared with C03)
+    from props import C03
+    for name, u in C03.units():
+        if 'SingleObserver' in name:
+            us.append((name.replace('C03/', 'C08/'), u))
     for status in STREAM_STATES:
         for attached in (False, True):
             for zero in (False, True):
